@@ -12,6 +12,6 @@ git -C /repo worktree add -q --detach "$WT" HEAD || exit 2
 ( cd "$WT" && git apply "$P" ) || { git -C /repo worktree remove --force "$WT"; echo "patch does not apply"; exit 2; }
 cd "$(dirname "$0")/.."
 for p in $PROPS; do
-  ./bin/ikelint -repo "$WT" -prop "$p" -no-evidence -known known_findings.json 2>&1 | grep -v '^KNOWN-FINDING\|^VIOLATION\|^\s*rule: ' | awk -v n="${QV_LINES:-40}" 'NR<=n'
+  "${IKELINT_BIN:-./bin/ikelint}" -repo "$WT" -prop "$p" -no-evidence -known known_findings.json 2>&1 | grep -v '^KNOWN-FINDING\|^VIOLATION\|^\s*rule: ' | awk -v n="${QV_LINES:-40}" 'NR<=n'
 done
 git -C /repo worktree remove --force "$WT"
